@@ -684,3 +684,66 @@ func (m *mach) linksKey(pt string, names []string, domains []string) string {
 	}
 	return b.String()
 }
+
+// machDirectFill is an adapter that appends to the model's rule lists itself (as database
+// adapters that bypass persist.LoadPolicyLine do), so that rules which LoadPolicyLine would
+// refuse (a grouping rule shorter than its role definition) reach the rebuild of the role links.
+type machDirectFill struct{ *recAdapter }
+
+func (a *machDirectFill) LoadPolicy(m model.Model) error {
+	for _, x := range a.Content {
+		ast := m[x.Pt[:1]][x.Pt]
+		if ast == nil {
+			continue
+		}
+		ast.Policy = append(ast.Policy, append([]string(nil), x.Rule...))
+		ast.PolicyMap[strings.Join(x.Rule, ",")] = len(ast.Policy) - 1
+	}
+	return nil
+}
+
+// machFailedReloads enumerates reloads that are rejected while the role links are rebuilt: the
+// old (valid) content, then a new content with new valid grouping rules around one rule that is
+// too short for the role definition, at every position.  f is called after the rejected reload.
+func machFailedReloads(c *Ctx, tag string, f func(id string, m *mach, conf machConf)) {
+	type fam struct {
+		conf       machConf
+		old, fresh []prule
+		short      prule
+	}
+	fams := []fam{
+		{machRBAC,
+			[]prule{{"p", []string{"admin", "data1", "read"}}, {"p", []string{"staff", "data2", "read"}}, {"g", []string{"alice", "admin"}}},
+			[]prule{{"p", []string{"admin", "data1", "read"}}, {"p", []string{"staff", "data2", "read"}}, {"g", []string{"carol", "admin"}}, {"g", []string{"alice", "staff"}}, {"g", []string{"bob", "admin"}}},
+			prule{"g", []string{"dave"}}},
+		{machDomain,
+			[]prule{{"p", []string{"admin", "d1", "data1", "read"}}, {"g", []string{"alice", "admin", "d1"}}},
+			[]prule{{"p", []string{"admin", "d1", "data1", "read"}}, {"g", []string{"carol", "admin", "d1"}}, {"g", []string{"alice", "admin", "d2"}}, {"g", []string{"bob", "admin", "d1"}}},
+			prule{"g", []string{"dave", "admin"}}},
+	}
+	for fi, fm := range fams {
+		for pos := 0; pos <= len(fm.fresh); pos++ {
+			m := newMach(fm.conf, false, false, "none", fm.old)
+			m.E.SetAdapter(&machDirectFill{m.A})
+			if err := m.E.LoadPolicy(); err != nil {
+				c.Direct(tag+".failed-reload", "initial load failed", err.Error())
+				continue
+			}
+			// ask before, so that memoised answers exist
+			for _, r := range fm.fresh {
+				if r.Pt == "p" {
+					_, _ = m.E.Enforce(toIface(append([]string{"carol"}, r.Rule[1:]...))...)
+					_, _ = m.E.Enforce(toIface(append([]string{"alice"}, r.Rule[1:]...))...)
+				}
+			}
+			var nc []prule
+			nc = append(nc, fm.fresh[:pos]...)
+			nc = append(nc, fm.short)
+			nc = append(nc, fm.fresh[pos:]...)
+			m.A.Content = nc
+			_ = m.E.LoadPolicy()
+			f(fmt.Sprintf("%s.failed-reload.%d.%d", tag, fi, pos), m, fm.conf)
+			c.Count("failed-reload")
+		}
+	}
+}
